@@ -93,9 +93,13 @@ class PpGen:
         fls = [n for n, v in defined.items() if v]
         forms = ['(%s + %s)' % (p(0), p(1)), '%s##%s' % (p(0), p(1)), '#%s' % p(0), '[%s, %s]' % (p(0), p(1)), p(0), '%s##_##%s' % (p(0), p(1)),
                  '"%s" + %s' % (p(0), p(0)), '%sx %s x%s' % (p(0), p(0), p(0)), 'pre_##%s' % p(0), '%s##_post' % p(0), '#%s + #%s' % (p(0), p(1)),
-                 '(%s) call {%s}' % (p(0), p(1)), '', '1', 'x y', '"text"', '(2 + 3)', '%s;%s' % (p(1), p(0)), '[%s] # 0' % p(0), '\\path\\%s' % p(0)]
+                 '(%s) call {%s}' % (p(0), p(1)), '', '1', 'x y', '"text"', '(2 + 3)', '%s;%s' % (p(1), p(0)), '[%s] # 0' % p(0), '\\path\\%s' % p(0),
+                 # identifiers that contain a parameter name as an underscore-delimited piece: whole-identifier matching only
+                 'player_%s = %s' % (p(0), p(0)), 'my_%s_val = #%s' % (p(0), p(0)), '_%s + %s_' % (p(0), p(0)), '%s_%s' % (p(0), p(1)), 'x_%s_y_%s_z' % (p(0), p(1)),
+                 '%s1 + 1%s + %s' % (p(0), p(0), p(0))]
         if objs:
-            forms += ['%s + %s' % (r.choice(objs), p(0)), '#%s' % r.choice(objs), '%s##%s' % (p(0), r.choice(objs))]
+            forms += ['%s + %s' % (r.choice(objs), p(0)), '#%s' % r.choice(objs), '%s##%s' % (p(0), r.choice(objs)),
+                      'foo_%s + %s_bar + _%s' % (r.choice(objs), r.choice(objs), r.choice(objs))]
         if fls:
             f = r.choice(fls)
             forms += ['%s(%s)' % (f, ','.join(p(i) for i in range(defined[f]))), '%s(%s)' % (f, ','.join('(%s)' % p(i) for i in range(defined[f]))),
@@ -174,7 +178,11 @@ class PpGen:
                 u = self.uid()
                 out.append(r.choice(['// line comment A %d' % u, 'a = 1; /* block A %d */ b = 2;' % u, '/* multi\nline A %d */' % u, 'c = 3; // trailing B "q %d' % u,
                                      '/* "unbalanced %d */ d = 4;' % u, 'e = 5 / 2; f = 6 /7;', '/**/g = 1;', 'h = 1;/* x */// y %d' % u, '/* #define A 9\n#endif %d */' % u,
-                                     'i = 1; /* a // b %d */ j = 2;' % u]))
+                                     'i = 1; /* a // b %d */ j = 2;' % u,
+                                     # comments whose text begins or ends with the characters that delimit comments
+                                     'k = 1; /*/ hidden A %d */ l = 2;' % u, 'm = 1; /*// hidden %d */ n = 2;' % u, 'o = /***/ 1; p = /** A %d **/ 2;' % u,
+                                     'q = 1; /*/*/ r = %d;' % u, 's = 1; /* * / A %d */ t = 2;' % u, '//* line comment A %d' % u, 'u = 1; //// A %d' % u,
+                                     'v = 1; /* A %d *//* B */ w = 2;' % u, 'x = 1 /*A*/+/*B %d*/ 2;' % u]))
             elif k == 'string':
                 s = self.string(defined)
                 out.append(r.choice(['s = %s;', 'hint %s;', '[%s, 1]', '%s']) % s)
